@@ -67,7 +67,8 @@ def matrix():
             parts = [p.strip() for p in obl.split(";") if p.strip()]
             v = "; ".join("`%s`" % re.sub(r"\s*no-failing-input-found", "", p)[:110] for p in parts[:2])
         rows.append("| %s | %s | %s |" % (k, touched, v))
-    return "\n".join(rows) + "\n\n%d of %d confirmed changes are detected by the check of their property.\n" % (nd, len(det))
+    na = sum(1 for v in det.values() if v.startswith("patch does not apply"))
+    return "\n".join(rows) + "\n\n%d of %d confirmed changes are detected by the check of their property; %d no longer apply to the tree (the lines they change were rewritten by a later `fix:` commit - C06_m5 by the float-parsing repair #24, C09_m5 by the statistics-cursor repair #26 - they were detected while they applied and are kept for the record).\n" % (nd, len(det), na)
 
 
 def replace(s, tag, body):
